@@ -147,7 +147,7 @@ PROPS = {
         "assumptions": COMMON_ASSUMPTIONS,
     },
     "C11": {
-        "mc": ["hid_hide"], "gen": ["hide_reveal", "reveal_plain"],
+        "mc": ["hid_hide"], "gen": ["hide_reveal", "reveal_plain", "hide"],
         "rule": "all 39 kinds x secrets {empty,1,15,64 octets,...} x length paddings hitting 1..6 (thorough: ..63) blocks and "
                 "exact multiples of 16; directly and after encode/decode of the hidden AVP; TLC: RevealHide with a toy "
                 "hash over every plaintext length for 1..4 blocks and paddings 0..20",
@@ -358,11 +358,12 @@ def owns(prop, ev, tag):
             return died or tag in ("reveal-direct", "reveal-wire", "native-eq", "hide-of-hidden")
         return e == "reveal" and ev.get("v", {}).get("k") != "Hidden"
     if prop == "C12":
+        # (a panic where the reference construction yields a value is a difference from the reference too)
         if e == "hide":
-            return tag in ("hide-value", "hide-length", "hide-type", "hide-wire")
+            return died or tag in ("hide-value", "hide-length", "hide-type", "hide-wire", "unexpected-panic")
         if e == "hide_reveal":
-            return tag in ("hide-value", "hide-wire")
-        return e == "reveal" and tag == "reveal-value"
+            return died or tag in ("hide-value", "hide-wire")
+        return e == "reveal" and (died or tag == "reveal-value")
     if prop == "C13":
         return e == "reveal" and ev.get("v", {}).get("k") == "Hidden" and (died or tag in ("reveal-kind", "reveal-accepts-bad"))
     if prop == "C14":
